@@ -41,6 +41,15 @@ macro_rules! crate_h2c {
             (Expander::XofShake128, false) => <$g as HashToCurve<ExpandMsgXof<sha3::Shake128>>>::encode_to_curve($msg, $dst),
             (Expander::XofShake256, true) => <$g as HashToCurve<ExpandMsgXof<sha3::Shake256>>>::hash_to_curve($msg, $dst),
             (Expander::XofShake256, false) => <$g as HashToCurve<ExpandMsgXof<sha3::Shake256>>>::encode_to_curve($msg, $dst),
+            // generic XMD instantiations outside the named suites (same composition, other hash)
+            (Expander::XmdSha384, true) => <$g as HashToCurve<ExpandMsgXmd<sha2::Sha384>>>::hash_to_curve($msg, $dst),
+            (Expander::XmdSha384, false) => <$g as HashToCurve<ExpandMsgXmd<sha2::Sha384>>>::encode_to_curve($msg, $dst),
+            (Expander::XmdSha224, true) => <$g as HashToCurve<ExpandMsgXmd<sha2::Sha224>>>::hash_to_curve($msg, $dst),
+            (Expander::XmdSha224, false) => <$g as HashToCurve<ExpandMsgXmd<sha2::Sha224>>>::encode_to_curve($msg, $dst),
+            (Expander::XmdSha512t224, true) => <$g as HashToCurve<ExpandMsgXmd<sha2::Sha512Trunc224>>>::hash_to_curve($msg, $dst),
+            (Expander::XmdSha512t224, false) => <$g as HashToCurve<ExpandMsgXmd<sha2::Sha512Trunc224>>>::encode_to_curve($msg, $dst),
+            (Expander::XmdSha512t256, true) => <$g as HashToCurve<ExpandMsgXmd<sha2::Sha512Trunc256>>>::hash_to_curve($msg, $dst),
+            (Expander::XmdSha512t256, false) => <$g as HashToCurve<ExpandMsgXmd<sha2::Sha512Trunc256>>>::encode_to_curve($msg, $dst),
         }
     };
 }
